@@ -7,7 +7,7 @@ import itertools
 from .. import facts
 from ..model import AnalysisError, norm_text
 from ..regs import class_lookup, class_mro
-from ..ruleir import leaves
+from ..ruleir import deep_leaves, leaves
 from ..terms import walk
 from .common import base_name, construct_of, deep_terms, is_numpy_callable, loc_of, project, resolve_callee
 
@@ -368,8 +368,8 @@ def _run(ctx, world, mode, rule, restrict=None):
                 else:
                     K = Kind(world, assign, assign[e.argnum], ak)
                     want = ak
-                feasible = [leaf for conds, leaf in leaves(world.ev, res_) if not any(K.truth(c_) is (not pol_) for c_, pol_ in conds)]
-                ks_ak = {"?" if k == "B" else k for k in {K.of(leaf) for leaf in feasible}}
+                feasible = [leaf for conds, leaf in deep_leaves(world.ev, res_) if not any(K.truth(c_) is (not pol_) for c_, pol_ in conds)]  # (paths through inlined helpers too)
+                ks_ak = {k for k in {K.of(leaf) for leaf in feasible} if k != "B"} or {"?"}  # B: a leaf that only recurses / raises contributes no kind of its own
                 if len(aks) > 1 and "?" not in ks_ak and ks_ak != {want}:
                     bad.append((assign, ks_ak, want))  # definite for this possible output kind
                 ks |= ks_ak
@@ -385,10 +385,11 @@ def _run(ctx, world, mode, rule, restrict=None):
             desc = ", ".join(f"arg{i} {'complex' if k == 'C' else 'real'}" for i, k in sorted(assign.items()))
             what = "cotangent" if mode == "vjp" else "tangent"
             tgt = f"argument {e.argnum}" if mode == "vjp" else "the output"
+            sig_ = ",".join(f"arg{i}={k_}" for i, k_ in sorted(assign.items())) + "->" + "/".join(sorted(ks))
             ctx.fail(
                 rule,
                 inst,
-                inst,
+                inst + "|" + sig_,  # (the failing kind assignment and the kinds found are part of the finding's identity)
                 e.loc,
                 f"with {desc}: the {what} is {('real on one path and complex on another' if {'R', 'C'} <= set(ks) else ('complex' if 'C' in ks else 'real'))} but {tgt} is {'complex' if want == 'C' else 'real'} (no match_complex / kind cast aimed at it on this path)",
                 desc,
